@@ -534,8 +534,19 @@ class TdlImpulseResponse:
         # independently for each column (second dimension), which
         # corresponds to the second dimension is the time dimension (as the
         # channel response changes in time)
-        freq_response = np.fft.fft(
-            self._get_samples_including_the_extra_zeros(), fft_size, axis=0)
+        tap_values = self._get_samples_including_the_extra_zeros()
+        num_taps = tap_values.shape[0]
+        if num_taps > fft_size:
+            # Taps with a delay of `fft_size` or more alias into the first
+            # taps (np.fft.fft would simply discard them)
+            folded = np.zeros((fft_size, ) + tap_values.shape[1:],
+                              dtype=complex)
+            for start in range(0, num_taps, fft_size):
+                block = tap_values[start:start + fft_size]
+                folded[:block.shape[0]] += block
+            tap_values = folded
+
+        freq_response = np.fft.fft(tap_values, fft_size, axis=0)
         return freq_response
 
     def __mul__(self, value: float) -> "TdlImpulseResponse":
